@@ -14,12 +14,16 @@ TIE = {'component/quota.py': 'translator (Gen/Quota.v == Model/Quota.v, Props/Ge
 RULE = ('corpus; quota grid: votes 0..300 x seats 1..40 (+1e3 large random pairs thorough) for the 7 named quotas; '
         'random: 1..6 parties, n 1..30, 7 named quotas + constant(k), accept_equal x {error,ignore,subtract}, prev/caps maps '
         'absent|present; boundary: votes an exact multiple of the quota, Imperiali over-award, equal remainders at the cut, '
-        'tiny electorates; both QuotaDistributor and LargestRemainder. non-trivial = tie in result or prev/caps non-empty or '
+        'tiny electorates; after-tie: on_overaward=subtract with an over-award of 2..4 seats and a group of parties tied for the '
+        'first withdrawal, so that _subtract_overaward goes on with a Tie key in `selected` (counted on the implementation side as '
+        'reached:subtract-after-tie); both QuotaDistributor and LargestRemainder. non-trivial = tie in result or prev/caps non-empty or '
         'over-award or a party exactly on a quota multiple; distinct by hash of the canonical case. Cases in the recorded '
         'defect classes (cap branch entered, negative n_for_remainder) are compared with the faithful model and judged by '
         'the declarative caps/total checker')
 PARTIAL = ['capped statement: refuted on the pinned tree (known findings C02-capbranch, C02-lr-caps); the positive theorem is stated for the uncapped domain',
-           '_subtract_overaward with two successive ties: not modelled (cases skipped and counted)']
+           '_subtract_overaward: a Tie key tied with another key (a Tie of a Tie) is not modelled - proved unreachable on the '
+           'uncapped domain with a positive quota (C02_subtract_modelled); tie keys coming back from the recursive cap call and '
+           'LargestRemainder over tie keys: not modelled (cases skipped and counted)']
 TRUSTED = []
 QN = {1: 'hare', 2: 'hare_rounded', 3: 'droop', 4: 'hagenbach_bischoff', 5: 'hagenbach_bischoff_ceil',
       6: 'hagenbach_bischoff_rounded', 7: 'imperiali'}
@@ -72,7 +76,20 @@ def impl(c):
         a['prev_gains'] = {cname(k): v for k, v in c['prev']}
     if c['caps']:
         a['max_seats'] = {cname(k): v for k, v in c['caps']}
-    return ok(enc_dist(ev.evaluate(votes, c['n'], **a)))
+    # count the runs in which _subtract_overaward goes on after a tie (a Tie object among the keys of `remainders`)
+    import votelib.evaluate.core as core
+    orig = core.get_n_best
+
+    def spy(v, n_best):
+        if any(isinstance(k, core.Tie) for k in v):
+            c['_after_tie'] = True
+        return orig(v, n_best)
+    core.get_n_best = spy
+    try:
+        res = ev.evaluate(votes, c['n'], **a)
+    finally:
+        core.get_n_best = orig
+    return ok(enc_dist(res))
 
 
 def canon(c, wire):
@@ -265,6 +282,32 @@ def gen_boundary(rng, count):
                    pol=rng.randint(0, 2), votes=votes, n=n, prev=[], caps=[], boundary=True)
 
 
+def gen_after_tie(rng, count):
+    """on_overaward='subtract', an over-award of at least two seats, a group of parties tied for the first withdrawal:
+    _subtract_overaward continues with the Tie object as a key of `selected`"""
+    for _ in range(count):
+        t = rng.choice([1, 2, 5, 10, 10, 7])
+        g = rng.randint(2, 4)
+        w = rng.randint(1, 4)
+        r0 = rng.choice([0, 0, 1]) if t > 1 else 0
+        ids = list(range(1, g + rng.randint(0, 2) + 1))
+        rng.shuffle(ids)
+        votes = []
+        for i, k in enumerate(ids):
+            if i < g:
+                votes.append([k, t * w + r0])
+            else:
+                votes.append([k, t * rng.randint(1, 4) + rng.randint(r0, max(r0, t - 1))])
+        rng.shuffle(votes)
+        whole_tot = sum(v // t for _, v in votes)
+        over = rng.randint(2, 4)
+        n = whole_tot - over
+        if n < max(v // t for _, v in votes) or n < 1:
+            n = max(max(v // t for _, v in votes), 1)
+        yield dict(unit='quota_distributor' if rng.random() < 0.8 else 'largest_remainder', quota=[0, jq(Fraction(t))],
+                   ae=True, pol=2, votes=votes, n=n, prev=[], caps=[], boundary=True)
+
+
 def quota_model_line(c):
     return '%d (%s %s %d)' % (U['quota'], sx([c['qid']]), sx(q(c['v'])), c['s'])
 
@@ -315,6 +358,10 @@ def differential(ctx, stream, cases):
                 why = why or 'implementation differs from the proved model (%s)' % stream
             elif why is None:
                 ctx.notes.append('class %s: implementation no longer behaves as recorded but satisfies the checker' % cls)
+        if c.get('_after_tie'):
+            ctx.dist['reached:subtract-after-tie'] += 1
+            if cm == ('unmodelled',):
+                ctx.dist['unmodelled:after-tie'] += 1
         if nontrivial(c):
             ctx.nontrivial.add(common.case_hash({k: v for k, v in c.items() if not k.startswith('_')}))
         if why:
@@ -335,6 +382,7 @@ def explore(ctx, widen=1):
     ctx.differential('quota-grid', grid + big, quota_model_line, quota_impl, nontrivial=lambda c: c['v'] > 2 ** 53)
     differential(ctx, 'random', gen_random(ctx.rng, ctx.n(2500, 30000) * widen))
     differential(ctx, 'boundary', gen_boundary(ctx.rng, ctx.n(800, 8000) * widen))
+    differential(ctx, 'after-tie', gen_after_tie(ctx.rng, ctx.n(400, 4000) * widen))
 
 
 def replay(ctx, case, stream=None):
